@@ -98,15 +98,6 @@ theorem mem_lru_add (c : Lru κ β) (k : κ) (v : β) (e : κ × β) (h : e ∈ 
 theorem mem_lru_remove (c : Lru κ β) (k : κ) (e : κ × β) (h : e ∈ (c.remove k).items) :
     e ∈ c.items ∧ e.1 ≠ k := mem_aDel _ _ _ h
 
-theorem mem_lru_poke (c : Lru κ β) (k : κ) (v : β) (e : κ × β) (h : e ∈ (c.poke k v).items) :
-    e = (k, v) ∨ (e ∈ c.items ∧ e.1 ≠ k) := by
-  unfold Lru.poke at h
-  obtain ⟨e0, he0, rfl⟩ := List.mem_map.mp h
-  by_cases hk : e0.1 = k
-  · simp [hk]
-  · simp only [hk, if_false]
-    exact Or.inr ⟨he0, hk⟩
-
 /-! ### the invariant -/
 
 structure CacheOK (s : Store) : Prop where
@@ -114,7 +105,7 @@ structure CacheOK (s : Store) : Prop where
   txs : ∀ e ∈ s.cTxs.items, aGet s.db.txs e.1 = some e.2
   hashes : ∀ e ∈ s.cHashes.items, (aGet s.db.hashes e.1).getD [] = e.2
   main : ∀ e ∈ s.cMain.items, aGet s.db.main e.1 = some e.2
-  ckpt : ∀ e ∈ s.cCkpt.items, aGet s.db.ckpt e.1 = some e.2.c
+  ckpt : ∀ e ∈ s.cCkpt.items, aGet s.db.ckpt e.1 = some e.2.c ∧ e.2.sl = []
   keyed : ∀ b h, aGet s.db.hdr b = some h → h.hash = b
 
 theorem cacheOK_fresh (caps : Caps) (db : DB) (hk : ∀ b h, aGet db.hdr b = some h → h.hash = b) :
@@ -286,16 +277,19 @@ theorem loadCkpts_spec : ∀ (cs : List Ckpt) {s : Store} (_ : CacheOK s),
           | none => exact ⟨rfl, ok2, by rw [d2, d1]⟩
           | some l => exact ⟨rfl, ok2, by rw [d2, d1]⟩
 
-/-- the persisted fields `GetCheckpoint` answers, as a function of the DB -/
-def pureCkptFields (db : DB) (b : Nat) : Option Ckpt :=
+/-- what `GetCheckpoint` answers, as a function of the DB: the stored checkpoint with the
+    SupLinks of the stored header -/
+def pureCkpt (db : DB) (b : Nat) : Option CkptObj :=
   match aGet db.hdr b with
   | none => none
-  | some h => aGet db.ckpt (h.height, b)
+  | some h => match aGet db.ckpt (h.height, b) with
+    | none => none
+    | some c => some ⟨c, h.sl⟩
 
 theorem getCheckpoint_spec {s : Store} (ok : CacheOK s) (b : Nat) :
-    (getCheckpoint s b).1.map (·.c) = pureCkptFields s.db b ∧ CacheOK (getCheckpoint s b).2 ∧
+    (getCheckpoint s b).1 = pureCkpt s.db b ∧ CacheOK (getCheckpoint s b).2 ∧
       (getCheckpoint s b).2.db = s.db := by
-  unfold getCheckpoint pureCkptFields
+  unfold getCheckpoint pureCkpt
   obtain ⟨h1, ok1, d1⟩ := getHeader_spec ok b
   cases hh : getHeader s b with
   | mk r s1 =>
@@ -311,27 +305,26 @@ theorem getCheckpoint_spec {s : Store} (ok : CacheOK s) (b : Nat) :
         have hm := lru_get_some _ _ _ hc
         have e : s1.cCkpt.get (h.height, b) = (some o, (s1.cCkpt.get (h.height, b)).2) := by rw [← hc]
         rw [e]
-        simp only [Option.map_some]
+        simp only
+        obtain ⟨hrec, hsl⟩ := ok1.ckpt _ hm
+        simp only at hrec hsl
         refine ⟨?_, ⟨ok1.hdr, ok1.txs, ok1.hashes, ok1.main, ?_, ok1.keyed⟩, d1⟩
-        · rw [← d1]; exact (ok1.ckpt _ hm).symm
+        · rw [← d1, hrec, hsl]
+          cases o; simp
         · intro e' he'
-          rcases mem_lru_poke _ _ _ _ he' with h2 | h2
-          · subst h2; exact ok1.ckpt ((h.height, b), o) hm
-          · exact ok1.ckpt e' (mem_lru_get _ _ _ h2.1)
+          exact ok1.ckpt e' (mem_lru_get _ _ _ he')
       | none =>
         have e : s1.cCkpt.get (h.height, b) = (none, (s1.cCkpt.get (h.height, b)).2) := by rw [← hc]
         rw [e]
         simp only
         cases hd : aGet s1.db.ckpt (h.height, b) with
-        | none => simp only; exact ⟨by rw [← d1, hd]; rfl, ok1, d1⟩
+        | none => simp only; exact ⟨by rw [← d1, hd], ok1, d1⟩
         | some c =>
-          simp only [Option.map_some]
-          refine ⟨by rw [← d1, hd], ⟨ok1.hdr, ok1.txs, ok1.hashes, ok1.main, ?_, ok1.keyed⟩, d1⟩
+          simp only
+          refine ⟨by rw [← d1, hd]; simp, ⟨ok1.hdr, ok1.txs, ok1.hashes, ok1.main, ?_, ok1.keyed⟩, d1⟩
           intro e' he'
-          rcases mem_lru_poke _ _ _ _ he' with h2 | h2
-          · subst h2; exact hd
-          · rcases mem_lru_add _ _ _ _ h2.1 with h3 | h3
-            · subst h3; exact hd
-            · exact ok1.ckpt e' h3.1
+          rcases mem_lru_add _ _ _ _ he' with h3 | h3
+          · subst h3; exact ⟨hd, rfl⟩
+          · exact ok1.ckpt e' h3.1
 
 end BytomModel.Lemmas.Store
